@@ -31,15 +31,20 @@ type Inject struct {
 
 // Plan is everything the parent decides for one simulated run of the CLI.
 type Plan struct {
-	Args       []string  `json:"args"`
-	Dir        string    `json:"dir"`
-	Stdin      string    `json:"stdin"`
-	Stdout     string    `json:"stdout"`
-	Stderr     string    `json:"stderr"`
-	Tape       []uint64  `json:"tape"`
-	Stick      int       `json:"stick"`
-	CrashAt    int       `json:"crash_at"` // SIGKILL just before the operation with this sequence number (-1: never)
-	TornAt     int       `json:"torn_at"`  // the write with this sequence number writes TornN bytes and dies (-1: never)
+	Args    []string `json:"args"`
+	Dir     string   `json:"dir"`
+	Stdin   string   `json:"stdin"`
+	Stdout  string   `json:"stdout"`
+	Stderr  string   `json:"stderr"`
+	Tape    []uint64 `json:"tape"`
+	Stick   int      `json:"stick"`
+	CrashAt int      `json:"crash_at"` // SIGKILL just before the operation with this sequence number (-1: never)
+	TornAt  int      `json:"torn_at"`  // the write with this sequence number writes TornN bytes and dies (-1: never)
+	// SoftKillAt: a catchable termination signal (SIGTERM) arrives just before the operation
+	// with this sequence number (-1 or 0 with SoftKill false: never). With a registered
+	// handler the process continues and runs it; without one it dies there.
+	SoftKill   bool      `json:"soft_kill"`
+	SoftKillAt int       `json:"soft_kill_at"`
 	TornN      int       `json:"torn_n"`
 	Inject     []*Inject `json:"inject"`
 	TracePath  string    `json:"trace"`
@@ -191,6 +196,11 @@ func before(kind, p1, p2 string, flag int) (*OpRec, error) {
 	tline("%d intent %s flag=%d", op.Seq, op.key[0], flag)
 	if plan.CrashAt == op.Seq {
 		die("before op " + strconv.Itoa(op.Seq))
+	}
+	if plan.SoftKill && plan.SoftKillAt == op.Seq {
+		if !deliverTerm() {
+			die("SIGTERM without a handler before op " + strconv.Itoa(op.Seq))
+		}
 	}
 	if plan.TornAt == op.Seq && kind == "write" {
 		op.torn = plan.TornN
@@ -354,4 +364,76 @@ func NextChunk() int {
 		n = 1
 	}
 	return n
+}
+
+// --- catchable signals (seam used by the verifsignal facade) ------------------------------
+
+type sigReg struct {
+	c    chan<- os.Signal
+	sigs []os.Signal
+}
+
+var (
+	sigMu      sync.Mutex
+	sigRegs    []sigReg
+	sigIgnored bool
+)
+
+// Simulating reports whether a plan drives this process.
+func Simulating() bool { return simOn }
+
+func RegisterSignal(c chan<- os.Signal, sigs []os.Signal) {
+	sigMu.Lock()
+	sigRegs = append(sigRegs, sigReg{c, sigs})
+	sigMu.Unlock()
+	tline("SIGNOTIFY %d handler(s)", len(sigRegs))
+	res.Fired["signal-handler-registered"]++
+}
+
+func UnregisterSignal(c chan<- os.Signal) {
+	sigMu.Lock()
+	for i := 0; i < len(sigRegs); i++ {
+		if sigRegs[i].c == c {
+			sigRegs = append(sigRegs[:i], sigRegs[i+1:]...)
+			i--
+		}
+	}
+	sigMu.Unlock()
+}
+
+func IgnoreSignal(sigs []os.Signal) {
+	for _, s := range sigs {
+		if s == syscall.SIGTERM {
+			sigIgnored = true
+		}
+	}
+}
+
+// deliverTerm hands SIGTERM to every channel registered for it (or for all signals), without
+// blocking, like the runtime does. false: nobody handles it, the default action applies.
+func deliverTerm() bool {
+	sigMu.Lock()
+	defer sigMu.Unlock()
+	if sigIgnored {
+		tline("SIGTERM ignored")
+		return true
+	}
+	n := 0
+	for _, r := range sigRegs {
+		match := len(r.sigs) == 0
+		for _, s := range r.sigs {
+			if s == syscall.SIGTERM {
+				match = true
+			}
+		}
+		if match {
+			select {
+			case r.c <- syscall.SIGTERM:
+			default:
+			}
+			n++
+		}
+	}
+	tline("SIGTERM delivered to %d handler(s)", n)
+	return n > 0
 }
